@@ -272,8 +272,20 @@ def simStep (H : Bytes → Str) (reps : Array SimRep) (line : JVal) : Array SimR
                     let e5 := if PState.changesReadable d2.p.objects b.changes then [] else S "a committed revision has no readable object; "
                     let e6 := if writtenPacks.all (b.packs.contains ·) then [] else S "a pack was written that the block does not name; "
                     let e7 := if d2.stage.isEmpty then [] else S "staged objects were not packed; "
+                    -- literal comparison: the model's commit, run with the iteration orders found in the
+                    -- implementation's bytes, must produce exactly those bytes and names
+                    let info : Option JVal := match objGet (S "info") o with | some (.obj i) => some (.obj i) | _ => none
+                    let packOrder : List Str := match newPacks with
+                      | [k] => ((loadPackBytes H kv k).getD []).map (·.1)
+                      | _ => []
+                    let objOrder : List (Str × JObj) := packOrder.filterMap (fun dg => d1.stage.find? (fun p => p.1 = dg))
+                    let out := DState.commitWrites H d1 info objOrder b.changes
+                    let e8 := if objOrder.length = packOrder.length then [] else S "pack holds objects the model has not staged; "
+                    let e9 := if out.block.id = id then [] else S "block identifier differs: model " ++ out.block.id.render ++ S "; "
+                    let e10 := if out.writes.all (fun w => kv.read w.1 = some w.2) then [] else S "bytes written differ from the model's; "
+                    let e11 := if writtenPacks.isEmpty || out.packName = writtenPacks.head? then [] else S "pack name differs; "
                     let p' := PState.validateAll { d2.p with deltas := PState.insertDelta b .applied d2.p.deltas, docs := d2.p.docs.map (fun p => (p.1, p.2.commit)) }
-                    finishD { d2 with p := p', stage := [] } (e1 ++ e2 ++ e3 ++ e4 ++ e5 ++ e6 ++ e7 ++ ePack)
+                    finishD { d2 with p := p', stage := [] } (e1 ++ e2 ++ e3 ++ e4 ++ e5 ++ e6 ++ e7 ++ e8 ++ e9 ++ e10 ++ e11 ++ ePack)
         else if prim = S "adopt" then
           -- replay of an exported stage: the model takes over the reported trees and staged bodies
           -- after checking that committed entries are untouched and re-deriving leaves/winner
